@@ -267,6 +267,12 @@ def check(spec, n, ts):
 
 
 def rand_spec(rng):
+    if rng.random() < 0.06:
+        # long objects (3000 .. 8000 units): one line, or an open path of four long lines
+        s = float(rng.choice([800, 1500, 2000]))
+        if rng.random() < 0.5:
+            return {"kind": "segment", "pts": [(0.0, 0.0), (4 * s, 0.0)]}
+        return {"kind": "path", "segs": [[(0.0, 0.0), (s, 0.0)], [(s, 0.0), (s, s)], [(s, s), (0.0, s)], [(0.0, s), (0.0, 10.0)]], "closed": False}
     if rng.random() < 0.15:
         # short objects: a segment or an open path a fraction of a unit to a few units long ("for any path length")
         k = rng.choice([16.0, 64.0, 256.0, 1024.0])
@@ -298,16 +304,16 @@ def rand_spec(rng):
         segs = []
         cur = (float(rng.randint(-50, 50)), float(rng.randint(-50, 50)))
         for _ in range(rng.randint(1, 5)):
-            pts = oc.chain_seg(rng, cur, fams=("int", "int", "int", "teardrop", "retracted"))
+            pts = oc.chain_seg(rng, cur, fams=("int", "int", "int", "teardrop", "retracted", "collinear"))
             cur = pts[-1]
             segs.append(pts)
         return {"kind": "path", "segs": segs, "closed": False}
-    return {"kind": "segment", "pts": oc.rand_seg_pts(rng, rng.choice([2, 3, 4]), rng.choice(["int", "grid", "teardrop", "retracted"]))}
+    return {"kind": "segment", "pts": oc.rand_seg_pts(rng, rng.choice([2, 3, 4]), rng.choice(["int", "grid", "teardrop", "retracted", "collinear", "collinear"]))}
 
 
 def search(ctx, budget):
     rng = ctx.rng
-    n_cases = 60 * ctx.scale * budget
+    n_cases = 120 * ctx.scale * budget
     viol, samples = [], []
     seen = set()
     nontriv = skipped = 0
@@ -319,12 +325,18 @@ def search(ctx, budget):
         except Exception as e:
             viol.append({"what": "length raised %r" % e, "input": {"spec": spec, "n": 1, "ts": [0.0]}})
             continue
-        if L < 10 or L > 2500:
-            skipped += 1
+        if L <= 0 or L > 9000:
+            skipped += 1          # regular sampling tabulates the arc length in unit steps: cost grows with the square of the length
             continue
         n = rng.randint(1, max(1, int(L / 4)))
         if rng.random() < 0.3:
             n = max(1, int(L / 4))
+        if L > 2500:
+            n = rng.choice([200, 300, 400])     # long objects: a requested gap of a few dozen units
+        if spec["kind"] == "rect" and spec["w"] == spec["h"] and spec["w"] in (16, 64, 128) and rng.random() < 0.6:
+            # lengths that are exact in binary with sample counts that are not: the accumulated target falls a rounding error short of the
+            # full length, the loop runs once more and the walk itself arrives at t = 1
+            n = rng.choice([7, 10, 13, 14, 20, 26])
         ts = [0.0, 1.0] + [rng.randint(0, 64) / 64.0 for _ in range(4)] + [rng.random() for _ in range(3)]
         if spec["kind"] in ("path", "rect", "ellipse"):
             # the segment boundaries k/n themselves (as floats: for n = 5, 10, 49, ... the product t*n and the quotient t/(1/n) round differently)
